@@ -312,6 +312,9 @@ def check_errors(ctx, r):
     for fl in flags:
         if fl.guarded_setters and fl.getters and not fl.raising_getters:
             g0 = fl.getters[0]
+            if g0.name.startswith("_") and (g0.cls is not None or len(fl.getters) > 1 or g0.name not in ("get_treepath_memo",)):
+                # the flag is read by a private accessor (`_current()`); whether the public getter built on it raises is not followed
+                raise AnalysisError(f"C16.4: the '?' label is read through the private accessor {g0.qualname}; the raise of the public getter built on it is not followed")
             ctx.bad("C16.4", g0, g0.node, "reading the '?' label when no structured PyTree is being checked no longer raises "
                     "AnnotationError: a '?' axis outside a structured PyTree is silently accepted",
                     construct=f"{g0.name}: no raise")
